@@ -26,6 +26,11 @@ type RdbReplay struct {
 	KeyExists       string
 	KeyExistsLog    bool
 	ReplaceHashTag  bool
+
+	// key-exists=ignore: the split value whose first chunk found the key present; its
+	// continuation chunks are skipped as well
+	ignoredKey []byte
+	ignoring   bool
 }
 
 func (rr *RdbReplay) Replay(e *rdb.BinEntry) (err error) {
@@ -60,7 +65,11 @@ func (rr *RdbReplay) Replay(e *rdb.BinEntry) (err error) {
 		if ot == rdb.RdbObjectModule {
 			return fmt.Errorf("rdb module object requires RESTORE replay for key %s", e.Key)
 		}
+		if !e.FirstBin() && rr.ignoring && bytes.Equal(rr.ignoredKey, e.Key) {
+			return nil
+		}
 		if e.FirstBin() {
+			rr.ignoring = false
 			exist, err := common.Bool(rr.Client.Do("exists", e.Key))
 			if err != nil {
 				return err
@@ -79,6 +88,11 @@ func (rr *RdbReplay) Replay(e *rdb.BinEntry) (err error) {
 					if rr.KeyExistsLog {
 						log.Warnf("output key exist, ignore it : %s", e.Key)
 					}
+					if e.ObjectParser.IsSplited() {
+						rr.ignoring = true
+						rr.ignoredKey = append(rr.ignoredKey[:0], e.Key...)
+					}
+					return nil
 				case "error":
 					return fmt.Errorf("output key exist : %s", e.Key)
 				}
